@@ -192,7 +192,11 @@ def size_sweeps(name, L):
             for cf in ('tscf', 'ntscf'):
                 room = 1500 - (4 if udp else 0) - (24 if cf == 'tscf' else 12) - 8 - 4
                 for n in range(0, room + 1, 1):
-                    items.append(('%s text length %d' % (cf, n), control(cf, gpc_msg((b'Hello 1722 ' * 140)[:n]), udp)))
+                    text = (b'Hello 1722 ' * 140)[:n]
+                    m = gpc_msg(text)
+                    # if the listener prints the message at all, what it prints is the message's text and identifier
+                    line = '%s : GPC Code %d' % (text.decode(), 0x0000C0FFEE01)
+                    items.append(('%s text length %d' % (cf, n), control(cf, m, udp), None, '?' + line))
         elif name == 'cvf-listener':
             for n in list(range(0, 1473)):
                 items.append(('NAL length %d' % n, cvf_pdu(n)))
@@ -215,6 +219,13 @@ def size_sweeps(name, L):
                         fill.append(m); want.append((0x100 + k, bytes((k + i) & 0xFF for i in range(fl)))); room -= len(m); k += 1
                     if room == 0:
                         items.append(('%s 1500-byte datagram, last message payload %d' % (cf, ln), control(cf, b''.join(fill) + last, udp), want + [(0x321, bytes(range(1, ln + 1)))]))
+                # consistent messages whose payload is longer than any CAN frame: nothing may be written for them
+                for ln in list(range((64 if fd else 8) + 1, 300)) + [511, 512, 767, 768, 1023, 1024, 1279, 1280]:
+                    if hl + 16 + ln + 3 > 1500:
+                        continue
+                    big = can_msg(0x321, bytes((i * 3 + 1) & 0xFF for i in range(ln)), fdf=fd)
+                    ok = can_msg(0x322, b'\x07', fdf=fd)
+                    items.append(('%s message with a %d-byte payload, then a regular one' % (cf, ln), control(cf, big + ok, udp), 'nowhere'))
         for it in items:
             desc, d = it[0], it[1]
             if len(d) > 1500:
@@ -648,9 +659,12 @@ def run(prop, tier):
                     cls = classify2(st, eff, rep)
                     if not cls and wline is not None:
                         # reference for what the listener prints for a well-formed message: the path and the value, one line
+                        # (a leading '?': printing is optional, but what is printed must be this)
                         mo = re.search(r'STDOUT\[(.*)\]$', eff, re.S)
                         got_line = (mo.group(1) if mo else '').strip()
-                        if got_line != wline.strip():
+                        optional = wline.startswith('?')
+                        wline = wline[1:] if optional else wline
+                        if got_line != wline.strip() and not (optional and got_line == ''):
                             key = '%s: well-formed datagram of a particular size: printed line differs from the message (path and value)' % name
                             e = res.viol.setdefault(('C18', key), {'count': 0, 'case': sid, 'detail': 'first: mode %s, %s (%s build): printed %r expected %r' % (mlabel, desc, variant, got_line[-70:], wline[-70:]), 'tag': '', 'modes': set(), 'devs': set()})
                             e['count'] += 1
@@ -661,6 +675,14 @@ def run(prop, tier):
                         e = res.viol.setdefault(('C18', key), {'count': 0, 'case': sid, 'detail': 'first: mode %s, %s (%s build): %s' % (mlabel, desc, variant, rep[:300] or st), 'tag': '', 'modes': set(), 'devs': set()})
                         e['count'] += 1
                         e['modes'].add(mlabel); e['devs'].add('size-sweep')
+                    elif want == 'nowhere':
+                        mp_ = [mp for ml, a_, p_, mp in L['modes'] if ml == mlabel][0]
+                        ffn = frames_from_nowhere(evs, eff, mp_[0], mp_[1])
+                        if ffn:
+                            key = '%s: writes a CAN frame that no message of the datagram describes' % name
+                            e = res.viol.setdefault(('C18', key), {'count': 0, 'case': sid, 'detail': 'first: mode %s, %s: %s' % (mlabel, desc, ffn), 'tag': '', 'modes': set(), 'devs': set()})
+                            e['count'] += 1
+                            e['modes'].add(mlabel); e['devs'].add('size-sweep')
                     elif want is not None:
                         got = []
                         for tok in eff.split(';'):
